@@ -10,6 +10,7 @@ from harness.worker import Stream
 OBLIGATIONS = [
     "PgmVerif.C08_saturate_closed", "PgmVerif.C08_saturate_sound", "PgmVerif.C08_reach_exact", "PgmVerif.C08_reach_iff_active_trail",
     "PgmVerif.C08_ancestors_exact", "PgmVerif.C08_blanket_spec",
+    "PgmVerif.DSep.activeRev_reverse", "PgmVerif.C08_dconnection_symmetric",
 ]
 PARTIAL = ["the theorem is stated on trails (nodes may repeat, Koller-Friedman); the equivalent simple-path form used by the executable "
            "path-enumeration spec is confirmed exhaustively (all DAGs <= 4 nodes quick, 5 nodes thorough), not proved",
